@@ -196,9 +196,10 @@ def run(S):
         short = fn.name.split('::')[0]
         import glob
         import os
-        for p in glob.glob('/repo/crates/typstyle-core/src/**/*.rs', recursive=True):
+        from mirsym.session import REPO
+        for p in glob.glob(REPO + '/crates/typstyle-core/src/**/*.rs', recursive=True):
             if re.search(r'\bfn %s\b' % re.escape(short), open(p).read()):
-                return os.path.relpath(p, '/repo/crates/typstyle-core/src')
+                return os.path.relpath(p, REPO + '/crates/typstyle-core/src')
         return '?'
 
     # callers index for parameter obligations
